@@ -11,6 +11,18 @@ BASE_NOTE = ("Trusted base: CPython's ast parser, the engines under /verif/sa (p
              "conditions of the property - and not the value-level behaviour; see DESIGN.md for what is not decided.")
 
 CLAIMS = {
+    "C01": dict(
+        text=("Static rules; the bijection over ~75M (calendar, day) pairs is reduced to finite abstract domains: (R01.5) for all 18 concrete calculators (evaluated abstractly from CalendarSystem's "
+              "construction sites) and every finite year kind (leap flag; Hebrew leap x Heshvan x Kislev in both month numberings; Badi Ayyam-i-Ha 4|5) with the YEAR SYMBOLIC, the interpreter "
+              "evaluates the month/day split for EVERY day-of-year of that kind and checks month/day inside the reported tables, days_to_start_of_month(month)+day == d (split and inverse agree, "
+              "one-to-one, increasing), month lengths contiguous and summing to the year length; (R01.5b) Hebrew year flags derived from each of the six year lengths are the consistent ones; "
+              "(R01.3) the validators accept exactly days 1..days_in_month, months 1..months_in_year and the advertised years, (R01.3b) sibling readers of the Badi table agree and stay inside it, "
+              "(R01.3c) day numbers are range-checked against [start(min_year), start(max_year+1)-1]; (R01.4) definite initialisation of alternate constructors; (R01.6) folded Um Al Qura tables cover "
+              "the year span and are consistent at both advertised edges; (R01.1) bit-pack capacity/layout/encoder-decoder agreement; (R01.2) registry exhaustiveness. "
+              "NOT decided: agreement of year starts with year lengths across years (cycle arithmetic, molad) and the per-year data of tabular calendars beyond the edges."),
+        design_ref="DESIGN.md section 3, C01",
+        technique="static analysis: exhaustive finite-domain abstract evaluation (year symbolic, day-of-year and year kind enumerated), folded tables, layout/registry/definite-initialisation rules",
+    ),
     "C04": dict(
         text=("Wiring / guard clauses only (the walk of the 1.84M intervals of the bundled data is NOT decided): (R04.1-2) get_utc_offset is get_zone_interval(<same instant>).wall_offset, the fixed "
               "zone's offset is tied to its interval by construction, standard = wall - savings; (R04.3-4) min/max slots are fed by the aggregation with Offset.min/max, the aggregation visits every "
